@@ -1,0 +1,24 @@
+// Verification hooks: compiled only with `--cfg fuse_backend_rs_verif`.
+//
+// `yield_point(id)` is called at places where the OS may preempt a thread anyway (never while a
+// lock is held). By default it does nothing; a test harness may install a callback that parks
+// the calling thread to steer the interleaving of concurrent requests.
+
+use std::sync::{Arc, RwLock};
+
+type Callback = Arc<dyn Fn(u32) + Send + Sync>;
+
+static CALLBACK: RwLock<Option<Callback>> = RwLock::new(None);
+
+/// Install (or remove) the scheduling callback.
+pub fn set_yield_callback(cb: Option<Callback>) {
+    *CALLBACK.write().unwrap() = cb;
+}
+
+/// Called by instrumented code; `id` names the program point.
+pub fn yield_point(id: u32) {
+    let cb = CALLBACK.read().unwrap().clone();
+    if let Some(cb) = cb {
+        cb(id);
+    }
+}
